@@ -195,6 +195,9 @@ func (s *Sim) ping() {
 
 // submit parks the calling goroutine until the controller answers (or its ctx ends).
 func (s *Sim) submit(c *call) sqlResult {
+	if _, dead := deadIncs.Load(c.src); dead {
+		select {}
+	}
 	c.res = make(chan sqlResult, 1)
 	var pcs [32]uintptr
 	n := runtime.Callers(2, pcs[:])
@@ -207,16 +210,24 @@ func (s *Sim) submit(c *call) sqlResult {
 	s.newCalls = append(s.newCalls, c)
 	s.pmu.Unlock()
 	s.ping()
+	var r sqlResult
 	if c.ctx == nil {
-		return <-c.res
+		r = <-c.res
+	} else {
+		select {
+		case r = <-c.res:
+		case <-c.ctx.Done():
+			r = sqlResult{err: c.ctx.Err()}
+		}
 	}
-	select {
-	case r := <-c.res:
-		return r
-	case <-c.ctx.Done():
-		return sqlResult{err: c.ctx.Err()}
+	if _, dead := deadIncs.Load(c.src); dead {
+		// the process was killed while this call was in flight: it never sees the outcome
+		select {}
 	}
+	return r
 }
+
+var deadIncs sync.Map
 
 // trace records one line of the deterministic event log (hashed always, written when verbose).
 func (s *Sim) trace(format string, a ...any) {
